@@ -61,6 +61,11 @@ def isPipe : Expr → Bool
   | pipe _ _ => true
   | _ => false
 
+/-- not one of the forms `wrap_unary_op` parenthesises (PipeLine | BinOp | UnOp) -/
+def isAtom : Expr → Bool
+  | atom _ => true
+  | _ => false
+
 end Expr
 
 /-! ## printer -/
@@ -80,9 +85,7 @@ def print : Expr → List Tok
   | .atom n => [.atom n]
   -- un_op: "!"/"-" ++ wrap_unary_op(value); wrap_unary_op parenthesises PipeLine | BinOp | UnOp
   | .un op e =>
-    unTok op :: (match e with
-      | .atom _ => print e
-      | _ => paren (print e))
+    unTok op :: (if e.isAtom then print e else paren (print e))
   -- bin_op
   | .bin op l r =>
     let p := op.precedence
